@@ -8,16 +8,36 @@ TV = 'translation_validation'
 TRUST = ('go/ssa lowering of the current tree (x/tools v0.29.0); the SSA->SMT executor engine/gobmc.py and its library models engine/intrinsics.py; '
          'the regexp oracle engine/pike.py (exhaustively compared with Go regexp); z3 5.1.0; bounds as stated in the evidence file')
 CHECKS = {
- 'C18': dict(level=MC, technique='bounded symbolic execution of Go SSA (merged-path BMC) + SMT (z3), native replay of models',
+ 'C18': dict(level=MC, technique='bounded symbolic execution of Go SSA (merged-path BMC over the current /repo tree) + exact regexp oracle + SMT (z3 QF_BV); solver models replayed natively',
              text='For every argument string up to the stated length the solver shows that parseRuleId accepts exactly NNNNNN[-chainK][.ra] with K<=255 and resolves id, file name and chain offset as documented; each length is decided separately and completely. Bounded (length), not a proof.',
              ref='DESIGN.md 4/C18'),
 }
-CHECKS['C11'] = dict(level=MC, technique='bounded symbolic execution of updateRegex over Go SSA + exact regexp oracle + SMT (z3), native replay',
+BMC = 'bounded symbolic execution of Go SSA (merged-path BMC over the current /repo tree) + exact regexp oracle + SMT (z3 QF_BV); solver models replayed natively'
+TVT = 'translation validation: real pipeline output vs reference reading, one SMT query (z3 sequence/regex theory) per program over ALL subject strings; program axis enumerated'
+def mc(text, ref): return dict(level=MC, technique=BMC, text=text, ref=ref)
+def tvl(text, ref, extra=''): return dict(level=TV, technique=TVT + extra, text=text, ref=ref)
+CHECKS['C01'] = tvl('Every program of a bounded family (21 structure templates x atom pool, ~30k programs in quick) is compiled by the real pipeline built from /repo; for each, one solver query decides for all subject strings of every length whether the printed regex and the plain reading of the file accept the same strings. Known defect classes are structural predicates on the program; everything outside them must agree.', 'DESIGN.md 4/C01')
+CHECKS['C02'] = mc('Assume-guarantee decomposition of Operator.complete: one lemma per clean-up pass, decided for every printer-shaped text up to the stated length (each length separately, all bytes symbolic): printable one-line output, quotes escaped, no plain backslash, VT in the space class, no inline flag group, sorted flag prefix for every map order.', 'DESIGN.md 4/C02')
+CHECKS['C03'] = mc('Map iteration order is a symbolic schedule: parseLine is run twice with independent symbolic permutations of its 7 patterns on every line up to the stated length; expandDefinitions is run under all orders of its three map loops on enumerated definition shapes. Counterexamples are replayed in fresh processes until the runtime draws the offending order.', 'DESIGN.md 4/C03')
+CHECKS['C04'] = tvl('cmdline blocks under six toolchain.yaml shapes are compiled by the real pipeline and compared with the documented expansion (all evasion strings of every length, one query per block); in addition regexpStr is executed symbolically for every word up to the stated length against an independent character-by-character reference.', 'DESIGN.md 4/C04', ' + bounded symbolic execution of regexpStr')
+CHECKS['C05'] = tvl('Including programs x include files x positions are compiled by the real pipeline and compared (all subject strings) with the reference in which the include is inlined, own definitions local, prefixes/suffixes as a local block; flags in an include must be rejected.', 'DESIGN.md 4/C05')
+CHECKS['C06'] = tvl('include-except and suffix-pair programs are compiled (12 fresh runs each) and compared with the hand-computed set difference / suffix rewrite; the one-pair rewrite of replaceSuffixes is additionally decided symbolically (entry, old, new symbolic).', 'DESIGN.md 4/C06', ' + bounded symbolic execution of replaceSuffixes')
+CHECKS['C07'] = mc('expandDefinitions is executed under ALL iteration orders of its three map loops (symbolic permutations) on enumerated definition shapes (depth-3 chains under several namings, diamond, undefined reference, braces) and must yield the hand-expanded text.', 'DESIGN.md 4/C07')
+CHECKS['C08'] = mc('Havoc harness on the package-level assembler state (arbitrary leftover processor, every sequence of up to 3 line kinds) with an inductive stack invariant; --all isolation and completeness on modelled trees through the real performUpdate/performCompare walk callbacks.', 'DESIGN.md 4/C08')
+CHECKS['C09'] = mc('Per-line format step is a fixed point and has the canonical indentation for every line up to the stated length and depth 0..2; whole-file application (header, end of file, --check agreement, --check never writes) on enumerated file structures with symbolic short lines and final-newline flag.', 'DESIGN.md 4/C09')
+CHECKS['C10'] = mc('For every line up to the stated length and depth 0..1 the format step changes white space only and never loses the line; known unanchored-pattern classes excluded by signature.', 'DESIGN.md 4/C10')
+CHECKS['C11'] = dict(level=MC, technique=BMC,
     text='For every old/new operand (printable ASCII satisfying the C02 invariants) up to the stated lengths, both operator spellings, trailing bytes on the rule line and an arbitrary earlier rule whose SecRule line may be identical, the solver shows that updateRegex changes exactly the operand bytes of the addressed rule; known defect classes are excluded by signature and a witness of each is replayed.',
     ref='DESIGN.md 4/C11')
-CHECKS['C12'] = dict(level=MC, technique='bounded symbolic execution of readCurrentRegex/updateRegex over Go SSA + exact regexp oracle + SMT (z3), native replay',
+CHECKS['C12'] = dict(level=MC, technique=BMC,
     text='For every operand up to the stated length the solver shows that compare reads back exactly the stored operand and that a second update is the identity on the file bytes (round trip decomposed into single-step lemmas).',
     ref='DESIGN.md 4/C12')
+CHECKS['C13'] = mc('processYaml on enumerated file structures (id/title/other/empty/blank lines) with symbolic spacing, old values, trailing blanks and final-newline flag: n-th id is n, n-th title <rule>-n, other lines untouched, one final newline, second application identical; single arbitrary line lemma.', 'DESIGN.md 4/C13')
+CHECKS['C14'] = mc('One-step history lemma: from a marker line showing ANY accepted previous version, one run with any accepted version shows the new version/year (induction over runs gives history independence and idempotence); non-marker lines are byte-identical.', 'DESIGN.md 4/C14')
+CHECKS['C15'] = mc('Every os.WriteFile reached is logged with guard and path: walks over a modelled tree plus one arbitrary directory entry (symbolic name and IsDir); --check variants never write, rewriting commands write only their targets.', 'DESIGN.md 4/C15')
+CHECKS['C16'] = mc('Per fault class and position the command body must not end with exit status 0 (normal return / nil error); exit status derived from how the body ends (Fatal, Panic, returned error).', 'DESIGN.md 4/C16')
+CHECKS['C17'] = mc('bufio.Scanner modelled by its token-limit contract; a line longer than 64 KiB at a symbolic (or enumerated) position must not silently drop the following lines in any reader loop.', 'DESIGN.md 4/C17')
+CHECKS['C19'] = mc('All runtime-fault obligations (index, slice, nil, division) and unwinding assertions generated while executing the clean-up passes on every printer-shaped text up to the stated length.', 'DESIGN.md 4/C19')
 NA = {
  'C20': 'decided inside go-selfupdate + net/http + SHA-256 over downloaded streams; not encodable by a hand-written SSA->SMT executor (DESIGN.md section 7)',
 }
@@ -41,6 +61,7 @@ m = {'version': 1, 'setup_cmd': './setup.sh',
      'engines': [
         {'name': 'ssadump', 'path': 'engine/ssadump', 'serves_properties': sorted(CHECKS), 'kind_free_text': 'E0: go/packages+go/ssa dump of /repo working tree with harness overlay (JSON)'},
         {'name': 'gobmc', 'path': 'engine/gobmc.py', 'serves_properties': sorted(CHECKS), 'kind_free_text': 'E1: merged-path bounded model checker for Go SSA -> z3 (QF_BV), unwinding assertions, panic obligations'},
+        {'name': 'rxlang', 'path': 'engine/rxlang.py', 'serves_properties': ['C01','C04','C05','C06'], 'kind_free_text': 'E3: regexp/syntax AST -> SMT-LIB RegLan, equivalence over unbounded strings (z3 5.1.0), tvrun = real pipeline built from /repo'},
         {'name': 'pike', 'path': 'engine/pike.py', 'serves_properties': sorted(CHECKS), 'kind_free_text': 'E2: exact leftmost-first regexp submatch oracle from Go syntax.Prog, symbolic subject bytes'},
      ],
      'checks': checks, 'not_applicable': na,
